@@ -22,7 +22,7 @@ GEN_LOG = {
                      FormsM=FORMS_M, ThinBD=3, ThinB=97, ThinMD=13, ThinM=173, BigSet="{30, 60}", ThinS=6, ThinP=2, Mix="TRUE"),
 }
 GEN_GLM = {
-    "quick": dict(NGlm="{4}", XMax=2, YSet="{1, 2, 4}", ThinD=1, Thin=331, UnitCodes="{1, 2, 3, 4}", ThinU=601),
+    "quick": dict(NGlm="{4}", XMax=2, YSet="{1, 2, 4}", ThinD=1, Thin=331, UnitCodes="{1, 2, 3, 4}", ThinU=307),
     "thorough": dict(NGlm="{3, 4, 5}", XMax=3, YSet="{1, 2, 3, 4}", ThinD=41, Thin=127, UnitCodes="{1, 2, 3, 4}", ThinU=211),
 }
 CODING_INVS = ["InvBinCoding", "InvBinErrors", "InvMultiCoding"]
